@@ -1,9 +1,108 @@
+import CoupeModel.Model.Rcb
 import CoupeModel.Driver.Util
+import CoupeModel.Driver.RcbF32
+
+/-!
+C03 driver.  Ops (all floats as hex bit patterns; points are point-major):
+
+* `rcb <D> <iter> <tol f64> <threads> <plen> <nw> <w…> <np> <x f64 … np·D>` → `ok <ids>` | `lenmismatch`
+* `rib <D> <iter> <tol f64> <threads> <n> <w…> <orig f64 … n·D> <rot f64 … n·D>` → `ok <ids>`
+  (`rot` = the points in the frame Rib builds, exported by the hook; the model is
+  `runRib` with `rotate` = that table)
+* `reorder <D> <coord> <pivot> <n> <w…> <x f32 … n·D>` → `ok <split> | <item ids in final order>`
+* `split <D> <coord> <tol f64> <min f32> <max f32> <n> <w…> <x f32 … n·D>`
+  → `ok <split> <weight_left> <split_pos f32> | <item ids in final order>`
+-/
 
 namespace Coupe.Driver.C03
-open Coupe.Driver
+open Coupe.Rcb Coupe.Driver Coupe.Driver.RcbF32
 
-/-- (stub; not built yet) -/
-def handle (_toks : List String) : String := "bad-op"
+def showOutcome : Outcome → String
+  | .ok ids => if ids.isEmpty then "ok" else "ok " ++ joinNats ids
+  | .lenMismatch => "lenmismatch"
+  | .oob => "panic index out of bounds"
+  | .fuel => "abort fuel"
+
+def mkItemsF32 (dim : Nat) (ws : List Int) (xs : List Nat) : List (Item Float32) :=
+  mkItems (chunk dim ws.length (xs.map f32OfBits)) ws
+
+def handleRcb (dim iter tol plen : Nat) (ws : List Int) (np : Nat) (xs : List Nat) : String :=
+  let pts64 := chunk dim np (xs.map f64OfBits)
+  let pts := pts64.map (·.map Float.toFloat32)
+  let bb := bboxF64 dim pts64
+  showOutcome (runBB (withinTol (f64OfBits tol)) ⟨dim, fuel⟩ iter pts ws plen bb.1 bb.2)
+
+def handle (toks : List String) : String :=
+  match toks with
+  | "rcb" :: d :: iter :: tol :: _threads :: plen :: nw :: rest =>
+    match (do
+      let d ← parseNat? d
+      let iter ← parseNat? iter
+      let tol ← parseHex? tol
+      let plen ← parseNat? plen
+      let nw ← parseNat? nw
+      let (ws, rest) ← takeParsed parseInt? nw rest
+      match rest with
+      | np :: rest =>
+        let np ← parseNat? np
+        let (xs, rest) ← takeParsed parseHex? (np * d) rest
+        if rest.isEmpty then some (d, iter, tol, plen, ws, np, xs) else none
+      | [] => none) with
+    | none => "bad-op"
+    | some (d, iter, tol, plen, ws, np, xs) => handleRcb d iter tol plen ws np xs
+  | "rib" :: d :: iter :: tol :: _threads :: n :: rest =>
+    match (do
+      let d ← parseNat? d
+      let iter ← parseNat? iter
+      let tol ← parseHex? tol
+      let n ← parseNat? n
+      let (ws, rest) ← takeParsed parseInt? n rest
+      let (_orig, rest) ← takeParsed parseHex? (n * d) rest
+      let (rot, rest) ← takeParsed parseHex? (n * d) rest
+      if rest.isEmpty then some (d, iter, tol, n, ws, rot) else none) with
+    | none => "bad-op"
+    | some (d, iter, tol, n, ws, rot) =>
+      -- `runRib rotate`, `rotate` = the exported table; bounding box as `rcb` computes it
+      let table := chunk d n (rot.map f64OfBits)
+      let rotate : Nat → List Float := fun i => table.getD i []
+      let pts64 := (List.range n).map rotate
+      let pts := pts64.map (·.map Float.toFloat32)
+      let bb := bboxF64 d pts64
+      showOutcome (runBB (withinTol (f64OfBits tol)) ⟨d, fuel⟩ iter pts ws n bb.1 bb.2)
+  | "reorder" :: d :: coord :: pivot :: n :: rest =>
+    match (do
+      let d ← parseNat? d
+      let coord ← parseNat? coord
+      let pivot ← parseNat? pivot
+      let n ← parseNat? n
+      let (ws, rest) ← takeParsed parseInt? n rest
+      let (xs, rest) ← takeParsed parseHex? (n * d) rest
+      if rest.isEmpty then some (d, coord, pivot, ws, xs) else none) with
+    | none => "bad-op"
+    | some (d, coord, pivot, ws, xs) =>
+      match reorderSplit (mkItemsF32 d ws xs) pivot coord with
+      | .ok (l, r) => "ok " ++ toString l.length ++ " | " ++ joinNats ((l ++ r).map (·.id))
+      | .oob => "panic index out of bounds"
+      | .fuel => "abort fuel"
+  | "split" :: d :: coord :: tol :: mn :: mx :: n :: rest =>
+    match (do
+      let d ← parseNat? d
+      let coord ← parseNat? coord
+      let tol ← parseHex? tol
+      let mn ← parseHex? mn
+      let mx ← parseHex? mx
+      let n ← parseNat? n
+      let (ws, rest) ← takeParsed parseInt? n rest
+      let (xs, rest) ← takeParsed parseHex? (n * d) rest
+      if rest.isEmpty then some (d, coord, tol, mn, mx, ws, xs) else none) with
+    | none => "bad-op"
+    | some (d, coord, tol, mn, mx, ws, xs) =>
+      match split (withinTol (f64OfBits tol)) coord ws.sum (mkItemsF32 d ws xs) fuel 0
+          (f32OfBits mn) (f32OfBits mx) none with
+      | .ok r => "ok " ++ toString r.left.length ++ " " ++ toString r.weightLeft ++ " " ++
+          f32Hex r.splitPos ++ " | " ++ joinNats ((r.left ++ r.right).map (·.id))
+      | .oob => "panic index out of bounds"
+      | .fuel => "abort fuel"
+  | _ => "bad-op"
 
 end Coupe.Driver.C03
